@@ -23,7 +23,7 @@ var replayers = map[string]replayer{
 	"C13": {func() []*world.Config { return C13Configs(true) }, func(c *world.Config) explore.Monitor { return &c13Mon{} }},
 	"C04": {func() []*world.Config { return StructConfigs(true, []string{"none", "big"}, bothFormats) }, func(c *world.Config) explore.Monitor { return &c04Mon{} }},
 	"C09": {func() []*world.Config { return StructConfigs(true, []string{"none", "big"}, bothFormats) }, func(c *world.Config) explore.Monitor { return &c09Mon{} }},
-	"C08": {func() []*world.Config { return StructConfigs(true, []string{"none", "big"}, bothFormats) }, func(c *world.Config) explore.Monitor { return newC08() }},
+	"C08": {func() []*world.Config { return c08Configs(true) }, func(c *world.Config) explore.Monitor { return newC08() }},
 	"C05": {func() []*world.Config {
 		return append(StructConfigs(true, []string{"none", "big"}, bothFormats), C05ExtraConfigs(true)...)
 	}, func(c *world.Config) explore.Monitor { return &c05Mon{} }},
